@@ -273,7 +273,7 @@ class Engine(ExprMixin, CallMixin, StmtMixin):
                     from .sorts import OPAQUE
                     st.env[extra.arg] = const(OPAQUE, f"arg_{extra.arg}")
             for r in c.requires:
-                st.assume(self.spec_bool(r, st))
+                st.assume(self.spec_bool(r[6:] if r.startswith("ghost:") else r, st))
             for gname, gtext in c.ghost_init.items():
                 st.assume(self.equal(st.env[gname], self.coerce(self.spec_eval(gtext, st), c.ghosts[gname], fn), fn))
             c_expose = list(getattr(c, "expose", [])) + list(c.ghosts)
